@@ -7,7 +7,7 @@ import tempfile
 
 from hypothesis import strategies as st
 
-from .. import gen, runner, sut
+from .. import common, gen, runner, sut
 from .. import model as M
 
 ID = "C01"
@@ -78,7 +78,7 @@ def histories(draw):
         inputs.append([M.enc_inputs(draw(_inputs(sk["prog"], sk["classes"], iv, cluster))) for _ in range(draw(st.integers(2, 4)))])
     ops = []
     for _ in range(draw(st.integers(4, 40))):
-        k = draw(st.sampled_from(["new", "recompile", "recompile_same", "call", "call", "call", "cycle", "noise", "cycle_nocall"]))
+        k = draw(st.sampled_from(["new", "recompile", "recompile_same", "call", "call", "call", "cycle", "noise", "cycle_nocall", "recompile_failing"]))
         ops.append([k, draw(st.integers(0, 5)), draw(st.integers(0, len(srcs) - 1)), draw(st.integers(0, 3))])
     case = {"sources": [s["prog"] for s in srcs], "inputs": inputs, "ops": ops}
     if draw(st.booleans()):
@@ -90,7 +90,15 @@ def histories(draw):
 
 
 NOISE = ['def n { return "a" weighted 1 } /* never closed', 'def n { /* open', "@@@", "", 'def n { return "a" weighted 1 } // */ def m { return "b" weighted 1 }',
-         'def n { splitters: a, b, c return "a" weighted 1 ;', 'def lambda { splitters: class return "a" weighted 1 }', "/*"]
+         'def n { splitters: a, b, c return "a" weighted 1 ;', 'def lambda { splitters: class return "a" weighted 1 }', "/*",
+         # literals at the edge of what the interpreter converts (4300 digits is CPython's int <-> text limit)
+         "def n { splitters: u if u == " + "9" * 5000 + ' { return "a" weighted 1 } else { return "b" weighted 1 } }',
+         "def n { splitters: u if u == " + "9" * 4300 + ' { return "a" weighted 1 } else { return "b" weighted 1 } }',
+         'def n { splitters: u return "a" weighted ' + "1" * 400 + "." + "5" * 400 + ' , "b" weighted 1 }']
+
+
+NOISE_INVALID = ['def n { return "a" weighted 1 ;', "@@@", "", 'def n { splitters: u return "a" weighted 1, }', "def n { /* open",
+                 'def n { if a = 1 { return "a" weighted 1 } }']
 
 
 def _canon(o):
@@ -118,11 +126,17 @@ def judge(case):
             viol.append("same source and inputs, different result: first %r, now %r (%s) | inputs=%r | %s"
                         % (table[key], got, ctx, env, texts[si]))
 
+    state0 = common.global_state()
     try:
         for si in range(len(texts)):
             evs.append([E(texts[si]), si])
         for n, (k, e, si, ii) in enumerate(case["ops"]):
             e = e % len(evs)
+            if n:
+                changed = common.state_diff(state0, common.global_state())
+                if changed:
+                    viol.append("interpreter-wide state was changed by step %d %r: %s" % (n - 1, case["ops"][n - 1], "; ".join(changed)))
+                    break
             if k == "noise":
                 # somebody else compiles something odd in the same process (outcome irrelevant): later results must not care
                 sut.compile_text(NOISE[(e + si + ii) % len(NOISE)])
@@ -134,6 +148,15 @@ def judge(case):
                 evs[e][0].recompile(texts[si])
                 evs[e][1] = si
                 observe(si, ii, evs[e][0], "instance #%d after recompile" % e)
+            elif k == "recompile_failing":
+                # a deploy that goes wrong (the text is refused), followed by the roll-back to the text that was live
+                try:
+                    evs[e][0].recompile(NOISE_INVALID[(si + ii) % len(NOISE_INVALID)])
+                except Exception:
+                    pass
+                if ii % 2:
+                    evs[e][0].recompile(texts[evs[e][1]])
+                observe(evs[e][1], ii, evs[e][0], "instance #%d after a refused recompile%s" % (e, " and the roll-back to the live text" if ii % 2 else ""))
             elif k == "recompile_same":
                 evs[e][0].recompile(texts[evs[e][1]])
                 observe(evs[e][1], ii, evs[e][0], "instance #%d after same-text recompile" % e)
@@ -154,10 +177,16 @@ def judge(case):
                 if ii % 2 and not case.get("plain"):
                     observe(evs[e][1], ii + 1, evs[e][0], "instance #%d call at step %d" % (e, n))
                     observe(evs[e][1], ii, evs[e][0], "instance #%d repeated call at step %d" % (e, n))
+        if not viol:
+            changed = common.state_diff(state0, common.global_state())
+            if changed:
+                viol.append("interpreter-wide state was changed by the last step %r: %s" % (case["ops"][-1], "; ".join(changed)))
     except Exception as ex:
         viol.append("history raised %s: %s | ops=%r | %s" % (type(ex).__name__, str(ex)[:200], case["ops"], texts))
         for _ in range(2):
             sut.compile_text('/* reset */ def r { return "a" weighted 1 }')
+    if viol:
+        common.restore_state(state0)
     nt_keys = []
     for (si, ii), ctxs in contexts.items():
         if len(ctxs) >= 2 and _multi(case["sources"][si]):
@@ -331,6 +360,12 @@ def fixed_histories():
         ops = [["call", 0, 0, i] for i in range(n)] + [["new", 0, 0, n - 1]] + [["call", 2, 0, i] for i in reversed(range(n))]
         ops += [["recompile", 1, 0, 0]] + [["call", 1, 0, i] for i in (11, 3, 0, 2, 1)]
         ops += [["recompile_same", 0, 0, 3], ["cycle", 2, 0, 5]] + [["call", 0, 0, i] for i in (2, 1, 0, 6, 5, 4, 3, 11)]
+        # deploys that go wrong (every kind of refused text), each followed by the roll-back to the live text; then every
+        # kind of odd text compiled by somebody else in the process (incl. literals at CPython's int <-> text limit)
+        for j in range(len(NOISE_INVALID)):
+            ops += [["recompile_failing", j % 3, j, 1], ["call", j % 3, 0, j], ["recompile_failing", j % 3, j, 0], ["call", j % 3, 0, j + 1]]
+        for j in range(len(NOISE)):
+            ops += [["noise", 0, 0, j], ["call", j % 3, 0, j]]
         yield {"sources": [prog, prog], "inputs": [inputs, inputs], "ops": ops, "plain": True}
 
 
